@@ -25,7 +25,14 @@ F0 == Frame(S_rf, <<Q0>>)
 MR == MRef("ro", 0)
 GX == Gate("X", <<>>, <<Q0>>, <<>>)
 
-PlainNames    == {"ro", "Theta", "THETA", "a-b", "_x1", "Sin2", "x-1-y", "matrix", "Dagger", "bit", "Move"}
+\* spellings that equal a keyword of the lexer up to letter case, for every keyword class (Command, Modifier,
+\* DataType, KeywordToken): identifiers, because the lexer's keywords are case-sensitive.  (The harness sweeps ALL
+\* 67 keywords x {lower, Capitalised, UPPER} x 32 positions from the committed baseline spec/mc/C06_keyword_cases.ndjson.)
+KeywordLookAlikes == {"measure", "Declare", "halt", "jump-when", "Move",          \* commands
+                      "dagger", "Controlled", "forked",                          \* modifiers
+                      "bit", "Real", "integer",                                  \* data types
+                      "matrix", "sharing", "nonblocking", "As", "Mut", "MUT", "pauli-sum", "offset"}   \* keyword tokens
+PlainNames    == {"ro", "Theta", "THETA", "a-b", "_x1", "Sin2", "x-1-y"} \cup KeywordLookAlikes
 ReservedNames == {"pi", "PI", "i", "I", "sin", "SIN", "Cos", "sqrt", "Exp", "cis"}
 Names == PlainNames \cup ReservedNames
 
@@ -63,6 +70,7 @@ Case(pos, n) ==
     [] pos = "jump-when.cond.bare" -> Raw(Kw("JUMP-WHEN") \o SP \o TgtP("end") \o SP \o Name(n), JumpWhen(TFixed("end"), MRef(n, 0)))
     [] pos = "gate.name"         -> OfValue(Gate(n, <<>>, <<Q0>>, <<>>))
     [] pos = "gate.name.params"  -> OfValue(Gate(n, <<One>>, <<Q0>>, <<"DAGGER">>))
+    [] pos = "gate.name.varqubit" -> OfValue(Gate(n, <<>>, <<QVar("q9"), Q0>>, <<>>))
     [] pos = "defgate.name"      -> OfValue(DefGate(n, <<>>, SpecPerm(<<0, 1>>)))
     [] pos = "defgate.param"     -> OfValue(DefGate("G", <<n>>, SpecMatrix(<<<<Fn("cos", EVar(n))>>>>)))
     [] pos = "defgate.pauli.arg" -> OfValue(DefGate("U", <<>>, SpecPauli(<<n>>, <<PTerm("X", One, <<n>>)>>)))
@@ -105,7 +113,7 @@ Case(pos, n) ==
 Positions ==
   {"declare.name", "declare.sharing", "memref.dst", "memref.dst.bare", "memref.src", "memref.src.bare", "expr.index", "expr.bare",
    "expr.bare.infix", "expr.bare.fn", "expr.delay", "expr.attr", "call.name", "call.arg.id", "call.arg.mref", "label", "jump",
-   "jump-when.target", "jump-unless.cond", "jump-when.cond.bare", "gate.name", "gate.name.params", "defgate.name", "defgate.param",
+   "jump-when.target", "jump-unless.cond", "jump-when.cond.bare", "gate.name", "gate.name.params", "gate.name.varqubit", "defgate.name", "defgate.param",
    "defgate.pauli.arg", "defgate.seq.arg", "defcircuit.name", "defcircuit.param", "defcircuit.qubit", "defcal.name", "defcal.param",
    "defcal.qubit", "defcal-measure.qubit", "defcal-measure.target", "defcal-measure.name", "measure.name", "measure.qubit",
    "measure.target", "measure.target.bare", "qubit.variable", "qubit.percent", "reset.qubit", "fence.qubit", "delay.qubit",
@@ -170,5 +178,8 @@ KeywordsAreCaseSensitive == \A n \in Names : n \notin Reserved
 
 Emit == phase = "done" =>
   PrintT(<<"CASE", ToJson([pos |-> pos, name |-> name, decl |-> decl, reserved |-> IsReservedHere,
-                           text |-> Text(ThePieces), want |-> TheWant])>>)
+                           text |-> Text(ThePieces), want |-> TheWant,
+                           \* the same text written with a neutral name: tells a rejection that is due to the name
+                           \* from a change of the position's grammar
+                           neutral |-> Text(PrintProgram(IF decl THEN <<TheDeclOf("zq9")>> ELSE <<>>) \o PiecesOf(Case(pos, "zq9")))])>>)
 =============================================================================
